@@ -155,7 +155,7 @@ func (w *World) inlineCandidates() map[*ssa.Function][]*ssa.Call {
 // prepareInlining decides which helpers are spliced. Roles are resolved first on the plain graphs
 // (a renamed anchor is not a fresh helper), by running every check once with a discarded report.
 func prepareInlining(w *World) {
-	w.inlSites, w.cur, w.gsub, w.fgflat = nil, nil, nil, nil
+	w.inlSites, w.cur, w.gsub, w.fgflat, w.virt, w.virtOf = nil, nil, nil, nil, nil, nil
 	w.fgis = map[*ssa.Function]*FG{}
 	cands := w.inlineCandidates()
 	if len(cands) == 0 {
@@ -289,7 +289,16 @@ func (w *World) isInlSite(c *ssa.Call) bool {
 // called more than once within one graph is not spliced there. FGI also makes its result the
 // current context for access paths (parameters of spliced helpers read as the arguments).
 func (w *World) FGI(fn *ssa.Function) *FG {
+	if g, ok := w.virt[fn]; ok {
+		if w.curLock == 0 {
+			w.cur = g
+		}
+		return g
+	}
 	if len(w.inlSites) == 0 {
+		if w.curLock == 0 {
+			w.cur = nil
+		}
 		return w.FG(fn)
 	}
 	return w.spliced(fn, w.fgis, w.isInlSite)
@@ -329,8 +338,11 @@ func (w *World) FGFlat(fn *ssa.Function) *FG {
 
 func (w *World) spliced(fn *ssa.Function, cache map[*ssa.Function]*FG, isSite func(*ssa.Call) bool) *FG {
 	if g, ok := cache[fn]; ok {
-		if g.inl != nil && w.curLock == 0 {
+		if w.curLock == 0 {
 			w.cur = g
+			if g.inl == nil {
+				w.cur = nil
+			}
 		}
 		return g
 	}
@@ -370,6 +382,9 @@ func (w *World) spliced(fn *ssa.Function, cache map[*ssa.Function]*FG, isSite fu
 	if len(calls) == 0 {
 		g := w.FG(fn)
 		cache[fn] = g
+		if w.curLock == 0 {
+			w.cur = nil
+		}
 		return g
 	}
 	g := &FG{fn: fn, idx: map[ssa.Instruction]int{}, first: map[*ssa.BasicBlock]int{}, inl: map[int]bool{},
@@ -637,4 +652,12 @@ func (w *World) sentinelError(gl *ssa.Global) bool {
 		}
 	}
 	return stores == 1 && good
+}
+
+
+// keepCtx restores the access-path context on return (helpers that look at other functions in the
+// middle of a rule: defer w.keepCtx()()).
+func (w *World) keepCtx() func() {
+	old := w.cur
+	return func() { w.cur = old }
 }
